@@ -126,8 +126,9 @@ def gen_bs(rng: random.Random, tier: str) -> dict:
         if rng.random() < 0.15:
             kw["knots"][0] = float(xa.min())  # a knot equal to a bound
     if rng.random() < 0.4:
-        kw["lower_bound"] = float(np.quantile(xa, 0.1))
-        kw["upper_bound"] = float(np.quantile(xa, 0.9))
+        qlo, qhi = rng.choice([(0.1, 0.9), (0.1, 0.9), (0.3, 0.7), (0.4, 0.6), (0.0, 0.5), (0.5, 1.0)])  # also much narrower than the data
+        kw["lower_bound"] = float(np.quantile(xa, qlo))
+        kw["upper_bound"] = float(np.quantile(xa, qhi))
         if kw["lower_bound"] >= kw["upper_bound"]:
             kw.pop("lower_bound")
             kw.pop("upper_bound")
@@ -139,7 +140,7 @@ def gen_bs(rng: random.Random, tier: str) -> dict:
     lo, hi = float(xa.min()), float(xa.max())
     span = hi - lo
     xnew = [rng.uniform(lo - 0.3 * span, hi + 0.3 * span) for _ in range(6)] + [lo, hi]
-    return {"fn": "bs", "x": x, "kw": kw, "kind": kind, "nan_rows": nan_rows, "xnew": xnew, "path": rng.choice(["direct", "direct", "mm"])}
+    return {"fn": "bs", "x": x, "kw": kw, "kind": kind, "nan_rows": nan_rows, "xnew": xnew, "path": rng.choice(["direct", "direct", "mm"]), "ext_as_enum": rng.random() < 0.25}
 
 
 def kwtext(kw):
@@ -149,6 +150,10 @@ def kwtext(kw):
 def call_spline(case, fn_name, x, state, kw):
     from formulaic.transforms import TRANSFORMS
 
+    if case.get("ext_as_enum") and "extrapolation" in kw:  # the option given as the enumeration member instead of its name
+        from formulaic.transforms.basis_spline import SplineExtrapolation
+
+        kw = dict(kw, extrapolation=SplineExtrapolation(kw["extrapolation"]))
     res = TRANSFORMS[fn_name](x, _state=state, **kw)
     cols = [np.asarray(res[i], float) for i in sorted(res)]
     return np.column_stack(cols) if cols else np.zeros((len(x), 0))
@@ -203,7 +208,7 @@ def judge_bs(case) -> Outcome:
         if M.shape[1] != kw["df"]:
             out.fail("c12.df_columns", f"{tag}: {M.shape[1]} columns for df={kw['df']}")
         nk = kw["df"] - k - (1 if inc else 0)
-        inb = x[(x >= lo) & (x <= hi)] if ext in ("clip", "na", "zero") else x[~np.isnan(x)]
+        inb = x[(x >= lo) & (x <= hi)]  # interior knots are quantiles of the values the basis is defined on: those inside the bounds
         inb = inb[~np.isnan(inb)]
         expk = np.quantile(inb, np.linspace(0, 1, nk + 2))[1:-1]
         interior = tt[k + 1: len(tt) - k - 1]
@@ -331,7 +336,8 @@ def gen_cubic(rng: random.Random, tier: str) -> dict:
         kw["knots"] = sorted({round(rng.uniform(lo, hi), 6) for _ in range(rng.randint(1 if not cyclic else 2, 4))})
         kw["knots"] = [q for q in kw["knots"] if lo < q < hi] or [float((lo + hi) / 2)]
     if rng.random() < 0.3:
-        lb, ub = float(np.quantile(xa, 0.05)), float(np.quantile(xa, 0.95))
+        qlo, qhi = rng.choice([(0.05, 0.95), (0.05, 0.95), (0.2, 0.8), (0.0, 0.7)])
+        lb, ub = float(np.quantile(xa, qlo)), float(np.quantile(xa, qhi))
         if lb < ub and ("knots" not in kw or all(lb < q < ub for q in kw["knots"])):
             kw["lower_bound"], kw["upper_bound"] = lb, ub
     ext = rng.choice(["extend", "extend", "clip", "na", "zero", "raise"])
@@ -339,7 +345,11 @@ def gen_cubic(rng: random.Random, tier: str) -> dict:
     lo, hi = float(xa.min()), float(xa.max())
     span = hi - lo
     xnew = [rng.uniform(lo - 0.3 * span, hi + 0.3 * span) for _ in range(6)] + [lo, hi]
-    return {"fn": fn, "x": x, "kw": kw, "kind": kind, "xnew": xnew, "path": rng.choice(["direct", "direct", "mm"])}
+    as_int = kind == "ints" and rng.random() < 0.6  # the column holds integers (dtype int64): same numbers, same basis
+    if as_int:
+        xnew = [float(round(v)) for v in xnew] + [lo - 3.0, hi + 4.0]
+    return {"fn": fn, "x": x, "kw": kw, "kind": kind, "xnew": xnew, "path": rng.choice(["direct", "direct", "mm"]), "as_int": as_int,
+            "ext_as_enum": rng.random() < 0.2}
 
 
 def judge_cubic(case) -> Outcome:
@@ -352,18 +362,19 @@ def judge_cubic(case) -> Outcome:
     cyclic = fn == "cc"
     ext = kw["extrapolation"]
     center = kw.get("constraints") == "center"
-    out.sig = (fn, case["kind"], "df" in kw, len(kw.get("knots", [])), center, ext, "lower_bound" in kw, case["path"])
+    out.sig = (fn, case["kind"], "df" in kw, len(kw.get("knots", [])), center, ext, "lower_bound" in kw, case["path"], bool(case.get("as_int")))
     x = np.array(case["x"], float)
-    tag = f"{fn}(x, {kwtext(kw)}) kind={case['kind']} n={len(x)} path={case['path']}"
+    asint = (lambda a: np.asarray(a).astype("int64")) if case.get("as_int") else (lambda a: a)
+    tag = f"{fn}(x, {kwtext(kw)}) kind={case['kind']} n={len(x)} path={case['path']} int_dtype={bool(case.get('as_int'))}"
     has_bounds = "lower_bound" in kw
     oob_given = has_bounds and bool(np.any((x < kw["lower_bound"]) | (x > kw["upper_bound"])))
     st: dict = {}
     try:
         with quiet():
             if case["path"] == "direct":
-                M = call_spline(case, fn, x, st, kw)
+                M = call_spline(case, fn, asint(x), st, kw)
             else:
-                mm = model_matrix(f"0 + {fn}(x, {kwtext(kw)})", pd.DataFrame({"x": x}), na_action="ignore", context={})
+                mm = model_matrix(f"0 + {fn}(x, {kwtext(kw)})", pd.DataFrame({"x": asint(x)}), na_action="ignore", context={})
                 M = dense(mm)
                 st = dict(next(iter(mm.model_spec.transform_state.values())))
     except Exception as e:  # noqa: BLE001
@@ -426,7 +437,7 @@ def judge_cubic(case) -> Outcome:
             out.fail("c12.reuse_raised", f"{tag} at knots: {type(e).__name__}: {str(e)[:200]}")
     else:
         inb = ~np.isnan(M).any(axis=1)
-        if ext in ("extend", "clip", "raise", "na"):
+        if ext in ("extend", "clip", "raise", "na", "zero"):  # (zeroed out-of-range rows count as zeros)
             means = M[inb].mean(axis=0)
             if np.abs(means).max() > 1e-8 * scale:
                 out.fail("c12.centering", f"{tag}: column means on the training data {means.tolist()} are not zero")
@@ -448,7 +459,7 @@ def judge_cubic(case) -> Outcome:
     try:
         with quiet():
             st3 = dict(st)
-            Mn = call_spline(case, fn, xn, st3, kw)
+            Mn = call_spline(case, fn, asint(xn), st3, kw)
         if list(st3["knots"]) != list(st["knots"]):
             out.fail("c12.state_retrained", f"{tag}: knots changed on reuse")
         if not center:
